@@ -21,6 +21,7 @@ func runC19(c *Ctx) {
 	r07_2(c, "R19.4")
 	r19_5(c, "R19.5")
 	r19_6(c, "R19.6")
+	r19_7(c, "R19.7")
 }
 
 type metaLoop struct {
@@ -431,5 +432,134 @@ func r19_6(c *Ctx, rule string) {
 			}
 		}
 		c.R.Check(cellLoop && cellRun, rule, base+"/same-buffer", c.P.Pos(run.Pos()), "the buffer written is the one the receive loop filled", "the buffer written to the listing file is not the one the receive loop filled")
+	}
+}
+
+// R19.7: the metadata buffer hands out exactly the bytes asked for and writes
+// every chunk out (the part of the chunk arithmetic that has a structural form).
+func r19_7(c *Ctx, rule string) {
+	c.R.Rule(rule, "buffer.alloc(n) returns a slice of exactly n bytes on every path - a fresh make([]byte, n), the first n bytes of a fresh chunk, or bytes [l, l+n) of the last chunk only when l+n <= cap - and the slice is part of b.chunks; WriteTo writes every chunk, checked, in order")
+	al := c.Fn(rule, "fsutil.(*buffer).alloc")
+	if al == nil {
+		return
+	}
+	n := al.Params[len(al.Params)-1]
+	base := c.name(al)
+	k := 0
+	eng.Instrs(al, func(in ssa.Instruction) {
+		r, ok := in.(*ssa.Return)
+		if !ok {
+			return
+		}
+		k++
+		con := fmt.Sprintf("%s/return#%d", base, k)
+		switch v := r.Results[0].(type) {
+		case *ssa.MakeSlice:
+			c.R.Check(v.Len == ssa.Value(n), rule, con+"/length", c.pos(r), "make([]byte, n)", "alloc returns a fresh slice whose length is not n")
+		case *ssa.Slice:
+			switch {
+			case v.Low == nil:
+				_, fresh := v.X.(*ssa.Alloc)
+				c.R.Check(fresh && v.High == ssa.Value(n), rule, con+"/length", c.pos(r), "the first n bytes of a fresh chunk", "alloc returns a prefix of a chunk whose length is not n")
+			default:
+				hi, isAdd := v.High.(*ssa.BinOp)
+				okLen := isAdd && hi.Op == token.ADD && hi.X == v.Low && hi.Y == ssa.Value(n)
+				c.R.Check(okLen, rule, con+"/length", c.pos(r), "bytes [l, l+n) of the last chunk", "alloc returns a window of the last chunk that is not [l, l+n)")
+				// l is the chunk's old length
+				lenCall, isLen := v.Low.(*ssa.Call)
+				c.R.Check(isLen && c.P.CalleeName(lenCall) == "builtin:len", rule, con+"/starts-at-old-length", c.pos(r), "the window starts at the chunk's previous length (no overlap with earlier records)", "the window handed out does not start at the chunk's previous length: records overlap")
+				// guarded by l+n <= cap
+				guarded := false
+				eng.Instrs(al, func(i2 ssa.Instruction) {
+					iff, ok := i2.(*ssa.If)
+					if !ok {
+						return
+					}
+					bo, ok := iff.Cond.(*ssa.BinOp)
+					if !ok || bo.Op != token.LEQ {
+						return
+					}
+					capCall, isCap := bo.Y.(*ssa.Call)
+					sum, isSum := bo.X.(*ssa.BinOp)
+					if isCap && c.P.CalleeName(capCall) == "builtin:cap" && isSum && sum.Op == token.ADD && sum.Y == ssa.Value(n) {
+						t := iff.Block().Succs[0]
+						if t == r.Block() || t.Dominates(r.Block()) {
+							guarded = true
+						}
+					}
+				})
+				c.R.Check(guarded, rule, con+"/fits", c.pos(r), "only when l+n <= cap(chunk)", "the last chunk is extended without the l+n <= cap test: the re-slice panics or spills")
+			}
+		default:
+			c.R.Undecided(rule, con+"/length", c.pos(r), "alloc returns a value of a shape this rule does not interpret")
+		}
+		// registered in b.chunks on this path
+		ok2, _, _ := c.Precedes(al, nil, nil, func(i2 ssa.Instruction) bool {
+			s, isS := i2.(*ssa.Store)
+			if !isS {
+				return false
+			}
+			if fa, isFA := s.Addr.(*ssa.FieldAddr); isFA && eng.FieldOwnerName(fa.X.Type(), fa.Field) == "fsutil.buffer.chunks" {
+				return true
+			}
+			if ia, isIA := s.Addr.(*ssa.IndexAddr); isIA && isFieldLoad(ia.X, "fsutil.buffer.chunks") {
+				return true
+			}
+			return false
+		}, func(i2 ssa.Instruction) bool { return i2 == in })
+		c.R.Check(ok2, rule, con+"/registered", c.pos(r), "the bytes handed out belong to b.chunks", "alloc hands out bytes that are not (yet) part of b.chunks: they are never written to the listing file")
+	})
+	c.R.Floor(rule, "returns of buffer.alloc", k, 3)
+	// order: chunks are only appended, or the last one extended in place
+	ne := 0
+	eng.Instrs(al, func(in ssa.Instruction) {
+		s, ok := in.(*ssa.Store)
+		if !ok {
+			return
+		}
+		switch a := s.Addr.(type) {
+		case *ssa.IndexAddr:
+			if !isFieldLoad(a.X, "fsutil.buffer.chunks") {
+				return
+			}
+			ne++
+			// index = len(b.chunks)-1 and the value is a re-slice of that very element
+			idxOK := false
+			if bo, isB := a.Index.(*ssa.BinOp); isB && bo.Op == token.SUB {
+				if k1, isK := eng.ConstInt(bo.Y); isK && k1 == 1 {
+					if lc, isL := bo.X.(*ssa.Call); isL && c.P.CalleeName(lc) == "builtin:len" && isFieldLoad(lc.Call.Args[0], "fsutil.buffer.chunks") {
+						idxOK = true
+					}
+				}
+			}
+			valOK := false
+			if sl, isS := s.Val.(*ssa.Slice); isS && sl.Low == nil {
+				if ld, isL := sl.X.(*ssa.UnOp); isL && ld.Op == token.MUL {
+					if ia2, isIA := ld.X.(*ssa.IndexAddr); isIA && isFieldLoad(ia2.X, "fsutil.buffer.chunks") {
+						valOK = true
+					}
+				}
+			}
+			c.R.Check(idxOK && valOK, rule, fmt.Sprintf("%s/element-store#%d", base, ne), c.pos(s), "the last chunk is extended in place", "an element of b.chunks is overwritten with something other than an extension of the last chunk: chunks are reordered or replaced, so the listing is not in stream order")
+		case *ssa.FieldAddr:
+			if eng.FieldOwnerName(a.X.Type(), a.Field) != "fsutil.buffer.chunks" {
+				return
+			}
+			ap, isCall := s.Val.(*ssa.Call)
+			okA := isCall && c.P.CalleeName(ap) == "builtin:append" && isFieldLoad(ap.Call.Args[0], "fsutil.buffer.chunks")
+			c.R.Check(okA, rule, fmt.Sprintf("%s/chunks-assign@%s", base, blockName(s)), c.pos(s), "b.chunks = append(b.chunks, new chunk)", "b.chunks is re-assigned other than by appending a new chunk at the end")
+		}
+	})
+	c.R.Floor(rule, "in-place extensions of the last chunk", ne, 1)
+	wt := c.Fn(rule, "fsutil.(*buffer).WriteTo")
+	if wt != nil {
+		calls := c.P.CallsTo(wt, "(io.Writer).Write")
+		c.R.Exact(rule, "Write calls in buffer.WriteTo", len(calls), 1)
+		for _, call := range calls {
+			c.R.Check(eng.InCycle(call.Block()), rule, c.siteName(call)+"/each-chunk", c.pos(call), "called for every chunk", "WriteTo does not write every chunk")
+			c.ObErrChecked(rule+"/checked", call)
+			ok := c.DerivesFrom(call.Common().Args[0], func(v ssa.Value) bool { return isFieldLoad(v, "fsutil.buffer.chunks") }, 4)
+			c.R.Check(ok, rule, c.siteName(call)+"/chunk", c.pos(call), "writes the chunk", "WriteTo does not write the chunks of the buffer")
+		}
 	}
 }
